@@ -1,19 +1,19 @@
 PROPS['C14'] = dict(
     level='fault_enumeration',
     technique='fault injection with exhaustive enumeration of the fault position per generated configuration (rapidcheck draws the configuration); bitwise recovery oracle and interposed-malloc leak oracle',
-    level_text='rapidcheck draws a configuration (one of the six Krylov solver classes or SymGEigsSolver<RegularInverse> with faults in the A or the B operator; matrix recipe, n <= 14, nev, ncv, start vector, rule, maxit <= 5, tol). '
+    level_text='rapidcheck draws a configuration (one of the six Krylov solver classes or SymGEigsSolver<RegularInverse> with faults in the A or the B operator; second unit c14m: SymGEigsSolver<Cholesky> and SymGEigsShiftSolver<ShiftInvert|Buckling|Cayley> on user-defined operators with faults in A x, the triangular solves, the shift-solve or B x, and DavidsonSymEigsSolver on a user-defined operator with faults in its block product; matrix recipe, n <= 14, nev, ncv, start vector, rule, maxit <= 5, tol; dynamic type of the injected exception: a plain class, a std::exception subclass, a std::runtime_error subclass or a std::invalid_argument subclass). '
                'The fault-free run is executed once to count N operator applications; then FOR EVERY k in 1..N a fresh solver is run with an operator that throws a private exception type carrying a nonce at its k-th application '
-               '(optionally a second fault during the recovery run). Asserted: that very exception (type and nonce) reaches the caller from init() or compute() as the position predicts; once the fault is removed, init(); compute() on the '
+               '(optionally a second fault during the recovery run). Asserted: that very exception (dynamic type and nonce) reaches the caller from init() or compute() as the position predicts; once the fault is removed, init(); compute() on the '
                'same solver object is bit-identical (values, vectors, count, info, iteration and operation counters) to the fault-free run; the live-heap-block count (malloc family interposed) returns to its starting value after '
                'solver and operator are destroyed.',
-    level_note='Exhaustive in the fault position for each generated configuration, sampling over configurations. Unsanitised build (the leak oracle owns malloc). PartialSVD and Davidson are not part of this harness.',
-    units=[dict(name='c14', src='c14_faults.cpp')],
+    level_note='Exhaustive in the fault position for each generated configuration, sampling over configurations. Unsanitised build (the leak oracle owns malloc). PartialSVDSolver and LOBPCGSolver take matrices, not user operators, so there is no user code that could fail inside them; they are outside this property\'s quantifier.',
+    units=[dict(name='c14', src='c14_faults.cpp'), dict(name='c14m', src='c14_more.cpp')],
     runs=dict(
-        quick=[dict(unit='c14', cases=4000, workers=4)],
-        thorough=[dict(unit='c14', cases=30000, workers='all')],
+        quick=[dict(unit='c14', cases=8000, workers=4), dict(unit='c14m', cases=6000, workers=4)],
+        thorough=[dict(unit='c14', cases=30000, workers='all'), dict(unit='c14m', cases=12000, workers='all')],
     ),
-    exhaustive_units=['c14'],
-    min=dict(quick=dict(cases=12000, nontrivial=6000, classes={'fault_positions_enumerated': 150000, 'fault_positions_inside_compute': 60000, 'fault_in_B_operator': 1000, 'two_faults': 3000}),
+    exhaustive_units=['c14', 'c14m'],
+    min=dict(quick=dict(cases=50000, nontrivial=25000, classes={'fault_positions_enumerated': 500000, 'fault_positions_inside_compute': 120000, 'fault_in_B_operator': 1000, 'two_faults': 10000, 'DavidsonSymEigsSolver': 3000, 'SymGEigsSolver<Cholesky>': 3000, 'SymGEigsShiftSolver<Buckling>': 3000, 'SymGEigsShiftSolver<Cayley>': 3000, 'SymGEigsShiftSolver<ShiftInvert>': 3000, 'fault_in:B operator (triangular solves)': 1000, 'fault_type:std::runtime_error subclass': 8000, 'fault_type:plain class': 8000}),
              thorough=dict(cases=400000, nontrivial=200000)),
     rule='case = configuration (solver class, recipe, n <= 14, nev, ncv, start, selection, sorting, maxit <= 5, tol, second-fault choice); within a case every fault position 1..N is enumerated (classes fault_positions_enumerated / '
          '_inside_compute count them). Non-trivial = at least one fault position falls inside compute() rather than init(); distinct = 64-bit hash of the draw log.',
